@@ -54,10 +54,11 @@ def queries(tier):
                     bound="set_parameter(arbitrary 1.8 kB configuration) then set_parameter(defaults + size 64..264 even)",
                     what="a rejected configuration leaves the handle usable; no call blocks on the configuration mutex", timeout=900,
                     checks=["--unwinding-assertions", "--drop-unused-functions", "--no-standard-checks"]))
-    qs.append(Query(name="enc_s_validate_manual_pred_struct", harness="C14/enc_api.c", entry="s_validate_arbitrary_config",
+    if tier == "thorough":
+      qs.append(Query(name="enc_s_validate_manual_pred_struct", harness="C14/enc_api.c", entry="s_validate_arbitrary_config",
                     funcs=[H + "copy_api_from_app", H + "verify_settings"], unwind=34, gen=gen_fill, defines=["SCS_STATIC=1", "ONLY_MANUAL_PS=1"],
                     bound="defaults + arbitrary manual prediction structure (entry count any int32 except 3..32, all entry contents)",
-                    what="validating any manual prediction structure performs no out-of-bounds access", timeout=900, mem_gb=24))
+                    what="validating any manual prediction structure performs no out-of-bounds access", timeout=3000, mem_gb=40))
     qs.append(Query(name="enc_s_validate_arbitrary_config", harness="C14/enc_api.c", entry="s_validate_arbitrary_config",
                     funcs=[H + "copy_api_from_app", H + "verify_settings", H + "set_default_configuration_parameters"],
                     unwind=34, gen=gen_fill, defines=["SCS_STATIC=1", "NO_MANUAL_PS=1"], mem_gb=24,
